@@ -28,6 +28,8 @@ func init() {
 			{ID: "C08-R3", Title: "Nil only for absent inputs", Floor: 5, Run: c08r3},
 			{ID: "C08-R4", Title: "Proxy read paths are effect-free", Floor: 3, Run: c08r4},
 			{ID: "C08-R5", Title: "conversion failures on the Eval path are errors, not panics", Floor: 1, Run: c08r5},
+			{ID: "C08-R6", Title: "vm.globals is the conversion of what the host supplies now", Floor: 2, Run: c08r6},
+			{ID: "C08-R7", Title: "conversions return fresh objects or immutable singletons", Floor: 20, Run: c08r7},
 		},
 	})
 }
